@@ -762,4 +762,245 @@ theorem safe_removeRangeCount (b : Bitmap) (h : b.WF) (lo hi : Bound)
     omega
 
 end Bitmap
+
+/-! ## serialization / statistics -/
+namespace Bitmap
+
+/-- payload size of one container in the offset table -/
+def cSize (c : Container) : Nat := match c.store with
+  | .array v => v.length * 2
+  | .bitmap _ => 8 * 1024
+
+theorem cSize_le (c : Container) (h : c.store.WF) : cSize c ≤ 8192 := by
+  unfold cSize
+  cases hs : c.store with
+  | array v => rw [hs] at h; have := h.2.2; simp only []; omega
+  | bitmap b => simp only []; omega
+
+theorem safe_offsetLoop : ∀ (b : Bitmap) (off : Nat), (∀ c ∈ b, c.store.WF) → off + 8192 * b.length < 2^32 →
+    Safe_offsetLoop b off
+  | [], _, _, _ => trivial
+  | c :: cs, off, h, hoff => by
+    have hc := h c (by simp)
+    have hsz := cSize_le c hc
+    simp only [List.length_cons, Nat.mul_add, Nat.mul_one] at hoff
+    have key : ∀ sz, sz ≤ 8192 → off + sz < 4294967296 ∧ off + sz + 8192 * cs.length < 2^32 := by
+      intro sz hsz'
+      generalize 8192 * cs.length = m at hoff ⊢
+      omega
+    unfold Safe_offsetLoop
+    unfold cSize at hsz
+    cases hs : c.store with
+    | array v =>
+      rw [hs] at hsz hc
+      have := hc.2.2
+      simp only [] at hsz ⊢
+      have h1 : v.length < 4294967296 := by omega
+      have h2 : v.length * 2 < 4294967296 := by omega
+      exact ⟨⟨h1, h2⟩, (key _ hsz).1, safe_offsetLoop cs _ (fun d hd => h d (by simp [hd])) (key _ hsz).2⟩
+    | bitmap bs =>
+      rw [hs] at hsz
+      simp only [] at hsz ⊢
+      exact ⟨trivial, (key _ hsz).1, safe_offsetLoop cs _ (fun d hd => h d (by simp [hd])) (key _ hsz).2⟩
+
+theorem wf_clen (c : Container) (h : c.store.WF) : 1 ≤ c.len ∧ c.len ≤ 65536 := by
+  have h2 := Store.len_le c.store (Store.wf_inv _ h)
+  unfold Container.len
+  refine ⟨?_, h2⟩
+  cases hs : c.store with
+  | array v => rw [hs] at h; exact h.2.1
+  | bitmap b => rw [hs] at h; have := h.2; show 1 ≤ b.len; omega
+
+theorem safe_serialize (b : Bitmap) (h : b.WF) : Safe_serialize b := by
+  have hlen := wf_length_le b h
+  refine ⟨by show _ < 2^32; omega, by show _ < 2^32; omega, ?_, ?_⟩
+  · intro c hc
+    have := wf_clen c (h.2 c hc).2
+    exact ⟨this.1, by show _ < 2^16; omega⟩
+  · exact safe_offsetLoop b _ (fun c hc => (h.2 c hc).2) (by omega)
+
+theorem foldl_add_le (f : Container → Nat) (B : Nat) : ∀ (b : Bitmap) (acc : Nat), (∀ c ∈ b, f c ≤ B) →
+    b.foldl (fun acc c => acc + f c) acc ≤ acc + B * b.length
+  | [], acc, _ => by simp
+  | c :: cs, acc, h => by
+    have hc := h c (by simp)
+    rw [List.foldl_cons]
+    refine Nat.le_trans (foldl_add_le f B cs _ (fun d hd => h d (by simp [hd]))) ?_
+    simp only [List.length_cons, Nat.mul_add]
+    omega
+
+theorem safe_serializedSize (b : Bitmap) (h : b.WF) : Safe_serializedSize b := by
+  have hlen := wf_length_le b h
+  unfold Safe_serializedSize serializedSize
+  have h2 : 8200 * b.length ≤ 8200 * 65536 := Nat.mul_le_mul_left _ hlen
+  refine Nat.lt_of_le_of_lt (Nat.add_le_add_left (foldl_add_le _ 8200 b 0 ?_) 8) ?_
+  · intro c hc
+    have hsz := cSize_le c (h.2 c hc).2
+    unfold cSize at hsz
+    cases hs : c.store with
+    | array v => rw [hs] at hsz; simp only [] at hsz ⊢; omega
+    | bitmap bs => simp only []; omega
+  · generalize 8200 * b.length = m at h2 ⊢
+    omega
+
+theorem len_filter_le : ∀ (b : Bitmap) (p : Container → Bool), len (b.filter p) ≤ len b
+  | [], _ => by simp
+  | c :: cs, p => by
+    have ih := len_filter_le cs p
+    rw [List.filter_cons]
+    split
+    · rw [len_cons, len_cons]; omega
+    · rw [len_cons]; omega
+
+theorem len_filter_le_mul (p : Container → Bool) (B : Nat) : ∀ (b : Bitmap), (∀ c ∈ b, p c = true → c.len ≤ B) →
+    len (b.filter p) ≤ B * b.length
+  | [], _ => by simp [len_nil]
+  | c :: cs, h => by
+    have ih := len_filter_le_mul p B cs (fun d hd => h d (by simp [hd]))
+    have hc := h c (by simp)
+    rw [List.filter_cons]
+    simp only [List.length_cons, Nat.mul_add]
+    split
+    · rename_i hp
+      rw [len_cons]
+      have := hc hp
+      omega
+    · omega
+
+theorem safe_statistics (b : Bitmap) (h : b.WF) : Safe_statistics b := by
+  have hlen := wf_length_le b h
+  have hl := wf_len_le b h
+  unfold Safe_statistics Bitmap.statistics
+  simp only []
+  refine ⟨by show _ < 2^32; omega,
+    Nat.lt_of_le_of_lt (List.length_filter_le _ _) (by omega),
+    Nat.lt_of_le_of_lt (List.length_filter_le _ _) (by omega), ?_,
+    Nat.lt_of_le_of_lt (len_filter_le_mul _ 4096 b ?_) ?_,
+    Nat.lt_of_le_of_lt (len_filter_le b _) (by omega), by show _ < 2^64; omega⟩
+  · intro c hc
+    cases hs : c.store with
+    | array v =>
+      have := (h.2 c hc).2
+      rw [hs] at this
+      have := this.2.2
+      show _ < 2^32; omega
+    | bitmap bs => trivial
+  · intro c hc hp
+    cases hs : c.store with
+    | array v =>
+      have := (h.2 c hc).2
+      rw [hs] at this
+      unfold Container.len; rw [hs]
+      exact this.2.2
+    | bitmap bs => rw [hs] at hp; simp at hp
+  · have : 4096 * b.length ≤ 4096 * 65536 := Nat.mul_le_mul_left _ hlen
+    omega
+
+end Bitmap
+
+/-! ## RoaringTreemap -/
+namespace Treemap
+
+/-- the partitions of a treemap are well-formed 32-bit bitmaps under `u32` keys (part of `TWF`) -/
+def PartsWF (t : Treemap) : Prop := ∀ p ∈ t, p.1 < 4294967296 ∧ p.2.WF
+
+theorem foldl_len (t : Treemap) (acc : Nat) :
+    t.foldl (fun acc p => acc + Bitmap.len p.2) acc = acc + Treemap.len t := by
+  unfold Treemap.len
+  induction t generalizing acc with
+  | nil => simp
+  | cons p t ih => rw [List.foldl_cons, List.foldl_cons, ih (acc + _), ih (0 + _)]; omega
+
+theorem len_cons (p : Nat × Bitmap) (t : Treemap) : Treemap.len (p :: t) = Bitmap.len p.2 + Treemap.len t := by
+  show List.foldl _ 0 (p :: t) = _
+  rw [List.foldl_cons, foldl_len]; omega
+
+theorem len_le_mul : ∀ (t : Treemap), PartsWF t → Treemap.len t ≤ 4294967296 * t.length
+  | [], _ => by simp [Treemap.len]
+  | p :: t, h => by
+    rw [len_cons, List.length_cons]
+    have h1 := Bitmap.wf_len_le p.2 (h p (by simp)).2
+    have h2 := len_le_mul t (fun q hq => h q (by simp [hq]))
+    omega
+
+theorem safe_split (v : Nat) (hv : v < 2^64) : Safe_split v := by
+  unfold Safe_split
+  rw [Nat.shiftRight_eq_div_pow]
+  show _ < 2^32
+  omega
+
+theorem safe_join (hi lo : Nat) (hhi : hi < 4294967296) (hlo : lo < 4294967296) : Safe_join hi lo := by
+  unfold Safe_join join
+  have h1 : hi <<< 32 < 2^64 := by rw [Nat.shiftLeft_eq]; omega
+  exact ⟨h1, Nat.or_lt_two_pow h1 (by omega)⟩
+
+/-- `len()` cannot overflow on a treemap with fewer than 2^32 partitions -/
+theorem safe_len (t : Treemap) (h : PartsWF t) (hl : t.length < 4294967296) : Safe_len t := by
+  have := len_le_mul t h
+  unfold Safe_len
+  show _ < 2^64
+  have : 4294967296 * t.length ≤ 4294967296 * 4294967295 := Nat.mul_le_mul_left _ (by omega)
+  omega
+
+/-- … and in general exactly when the treemap holds fewer than 2^64 values -/
+theorem len_eq_elems : ∀ (t : Treemap), PartsWF t → Treemap.len t = (Treemap.elems t).length
+  | [], _ => by simp [Treemap.len, Treemap.elems]
+  | p :: t, h => by
+    rw [len_cons, len_eq_elems t (fun q hq => h q (by simp [hq])), Bitmap.len_spec p.2 (h p (by simp)).2]
+    simp [Treemap.elems]
+
+theorem safe_len_iff (t : Treemap) (h : PartsWF t) : Safe_len t ↔ (Treemap.elems t).length < 2^64 := by
+  unfold Safe_len; rw [len_eq_elems t h]
+
+theorem safe_select : ∀ (t : Treemap) (n : Nat), PartsWF t → Safe_select t n
+  | [], _, _ => trivial
+  | (key, b) :: t, n, h => by
+    have hp := h (key, b) (by simp)
+    have hb : b.WF := hp.2
+    have hle := Bitmap.wf_len_le b hb
+    unfold Safe_select
+    split
+    · rename_i hn
+      have hlt : n < (Bitmap.elems b).length := by rw [← Bitmap.len_spec b hb]; omega
+      have hsel : Bitmap.select b n = some (Bitmap.elems b)[n] := by
+        rw [Bitmap.select_spec b hb n]; unfold Spec.select; exact List.getElem?_eq_getElem hlt
+      refine ⟨by show _ < 2^32; omega, by rw [hsel]; rfl, ?_⟩
+      rw [hsel]
+      exact safe_join key _ hp.1 (Bitmap.elems_lt b hb.dir _ (List.getElem_mem hlt))
+    · exact ⟨by omega, safe_select t _ (fun q hq => h q (by simp [hq]))⟩
+
+theorem safe_rank (t : Treemap) (h : PartsWF t) (hl : t.length < 4294967296) (v : Nat) (hv : v < 2^64) :
+    Safe_rank t v := by
+  refine ⟨safe_split v hv, ?_⟩
+  unfold Treemap.rank
+  simp only []
+  have hsub : ∀ q ∈ (range t .unb (.incl (split v).1)).reverse, q ∈ t := by
+    intro q hq
+    rw [List.mem_reverse] at hq
+    unfold range at hq
+    exact (List.mem_filter.mp hq).1
+  have hlen : (range t .unb (.incl (split v).1)).reverse.length ≤ t.length := by
+    rw [List.length_reverse]; unfold range; exact List.length_filter_le _ _
+  show _ < 2^64
+  cases hr : (range t .unb (.incl (split v).1)).reverse with
+  | nil => simp only []; omega
+  | cons p rest =>
+    obtain ⟨k, bm⟩ := p
+    rw [hr] at hsub hlen
+    simp only [List.length_cons] at hlen
+    have hb : bm.WF := (h _ (hsub (k, bm) (by simp))).2
+    have hrest := len_le_mul rest (fun q hq => h q (hsub q (by simp [hq])))
+    have h1 := Bitmap.wf_len_le bm hb
+    have hlo : (split v).2 < 4294967296 := by unfold split; simp only []; omega
+    have h2 : Bitmap.rank bm (split v).2 ≤ 4294967296 := by
+      rw [Bitmap.rank_spec bm hb _ hlo]
+      unfold Spec.rank
+      have := List.length_filter_le (fun x => decide (x ≤ (split v).2)) (Bitmap.elems bm)
+      rw [← Bitmap.len_spec bm hb] at this
+      omega
+    have : 4294967296 * rest.length ≤ 4294967296 * 4294967294 := Nat.mul_le_mul_left _ (by omega)
+    simp only []
+    split <;> omega
+
+end Treemap
 end Roaring
